@@ -77,47 +77,12 @@ theorem reget_true_nondoc (tree : PNode) (sel : Nat) (n : PNode) (h : nodeAt tre
 
 /-! ### context root -/
 
-/-- with the tree root as context root `get_root` answers "is the node met by `root.iter_lazy()`" -/
+/-- with the tree root as context root `get_root` always answers the tree root -/
 theorem ctxGetRoot_root (tree : PNode) (L : LazyState) (node : Nat) :
-    ctxGetRoot tree (some tree.pos) L node
-      = if (((iter tree).filter (keep L)).map (·.pos)).contains node then some tree.pos else none := by
+    ctxGetRoot tree (some tree.pos) L node = some tree.pos := by
   unfold ctxGetRoot
-  simp only [nodeAt_root, lazyNode_filter, iter]
-  rfl
-
-theorem walkPos_strict (a b : Nat) (hab : a ≠ b) : ∀ (l : List Rec), (l.map (·.pos)).Pairwise (· < ·) →
-    a ∈ l.map (·.pos) → b ∈ l.map (·.pos) → walkPos a b l = some (decide (a < b))
-  | [], _, ha, _ => by simp at ha
-  | r :: l, hs, ha, hb => by
-    simp only [List.map_cons, List.pairwise_cons] at hs
-    simp only [walkPos]
-    by_cases h1 : r.pos = a
-    · have hbl : b ∈ l.map (·.pos) := by
-        rcases List.mem_cons.1 hb with h | h
-        · exact absurd (h1.symm.trans h.symm |>.symm) (by intro h'; exact hab (by omega))
-        · exact h
-      have := hs.1 b hbl
-      simp [h1]; omega
-    · by_cases h2 : r.pos = b
-      · have hal : a ∈ l.map (·.pos) := by
-          rcases List.mem_cons.1 ha with h | h
-          · exact absurd h.symm h1
-          · exact h
-        have := hs.1 a hal
-        have h1' : (r.pos == a) = false := by simpa using h1
-        have hba : ¬ b = a := fun h => hab h.symm
-        have hnlt : ¬ a < b := by omega
-        simp [h2, hba, hnlt]
-      · have h1' : (r.pos == a) = false := by simpa using h1
-        have h2' : (r.pos == b) = false := by simpa using h2
-        simp only [h1', h2', Bool.false_eq_true, if_false]
-        refine walkPos_strict a b hab l hs.2 ?_ ?_
-        · rcases List.mem_cons.1 ha with h | h
-          · exact absurd h.symm h1
-          · exact h
-        · rcases List.mem_cons.1 hb with h | h
-          · exact absurd h.symm h2
-          · exact h
+  simp only [nodeAt_root]
+  split <;> rfl
 
 /-! ### a subtree's listing is a sublist of the tree's listing -/
 
